@@ -37,17 +37,23 @@ func (cw *CountingWriter) ReadFrom(r io.Reader) (n int64, err error) {
 	n = 0
 	for {
 		var nr int
-		nr, err = r.Read(buf)
-		if err != nil {
-			return
-		}
+		var rerr error
+		nr, rerr = r.Read(buf)
 
-		var nw int
-		nw, err = cw.w.Write(buf[:nr])
-		if err != nil {
+		if nr > 0 {
+			var nw int
+			nw, err = cw.w.Write(buf[:nr])
 			n += int64(nw)
-			cw.Written += n
-			return
+			cw.Written += int64(nw)
+			if err != nil {
+				return
+			}
+		}
+		if rerr == io.EOF {
+			return n, nil
+		}
+		if rerr != nil {
+			return n, rerr
 		}
 	}
 }
